@@ -6,7 +6,12 @@
 //!    `check(read_data)` and every visible snapshot must read back completely (pre-existing ones exactly);
 //!    `fail_only = k` for every k — the command must return `Err`, and the same state oracles must hold.
 //!
-//!   c03 mon <cmd> <seed> <pre-ops> <run-ops>
+//!   c03 mon <cmd> <seed> <pre-ops> <run-ops> [<replacements>]
+//!
+//! Snapshot-REPLACING commands (rewrite --forget, repair snapshots --delete): "no previously existing snapshot has lost data" —
+//! after every crash prefix / failed run every snapshot of the pre-state that the complete run keeps or replaces is still
+//! there, as itself or as a snapshot with the content of its successor (`Succession`); the trace carries the replacement
+//! table (`<old>><new>`) for the Lean loss monitor (`Repo.firstLost`).
 use std::collections::{BTreeMap, BTreeSet};
 
 use bytesize::ByteSize;
@@ -182,7 +187,9 @@ pub fn run_cmd(cmd: &str, seed: u64, h: &RepoHandle, scn: &Scn) -> RusticResult<
         }
         "rewrite" => {
             let r = h.open()?.to_indexed()?;
-            let snaps: Vec<SnapshotFile> = live.iter().map(|l| l.0.clone()).collect();
+            // the snapshots as the repository holds them (like the CLI: loaded, so `original` is set), in the order of `live`
+            let stored = r.get_all_snapshots()?;
+            let snaps: Vec<SnapshotFile> = live.iter().filter_map(|l| stored.iter().find(|s| s.id == l.0.id).cloned()).collect();
             let glob = *Rng::new(seed ^ 0x7e).pick(&["!**/f1*", "!**/d1", "!**/sub", "!**/f2", "**/d0"]);
             let topts = RewriteTreesOptions::default().excludes(Excludes::default().globs(vec![glob.to_string()]));
             // with `forget` the rewritten snapshots replace the old ones (removals at the end), without they are added
@@ -323,6 +330,7 @@ impl Namer {
 }
 
 /// Abstract the state before and the log of a run into the op tokens of the Lean monitor.
+#[allow(dead_code)]
 pub fn abstract_trace(h: &RepoHandle, before: &Store, after: &Store, log: &[LogOp]) -> Result<(String, String), String> {
     let (pre, run) = abstract_tokens(h, before, after, log)?;
     let j = |v: Vec<String>| if v.is_empty() { "-".to_string() } else { v.join(";") };
@@ -343,6 +351,11 @@ pub fn abstract_tokens_classes(h: &RepoHandle, before: &Store, after: &Store, lo
 }
 
 fn abstract_tokens_with(h: &RepoHandle, before: &Store, after: &Store, log: &[LogOp], classes: bool) -> Result<(Vec<String>, Vec<String>), String> {
+    abstract_tokens_numbered(h, before, after, log, classes).map(|(pre, run, _)| (pre, run))
+}
+
+/// as `abstract_tokens`, with the number every file got in the tokens
+fn abstract_tokens_numbered(h: &RepoHandle, before: &Store, after: &Store, log: &[LogOp], classes: bool) -> Result<(Vec<String>, Vec<String>, BTreeMap<Id, usize>), String> {
     let everything = union(before, after);
     let mut packs: BTreeMap<Id, Vec<(bool, Id)>> = BTreeMap::new();
     let index_all: BTreeMap<Id, IndexFile> = all_index(h, &everything)?.into_iter().collect();
@@ -408,9 +421,10 @@ fn abstract_tokens_with(h: &RepoHandle, before: &Store, after: &Store, log: &[Lo
     }
     for ((t, id), _) in before {
         if *t == repo::ft_idx(FileType::Snapshot) {
-            // damaged snapshots (closure not walkable) are not part of the protocol state
-            if let Some(Some(ks)) = clos.get(id) {
-                pre.push(format!("S{}:{}", nm.f(id), nm.keys(ks)));
+            // of a damaged snapshot (closure not walkable) the protocol state requires nothing: a snapshot file that needs no blob
+            match clos.get(id) {
+                Some(Some(ks)) => pre.push(format!("S{}:{}", nm.f(id), nm.keys(ks))),
+                _ => pre.push(format!("S{}:-", nm.f(id))),
             }
         }
     }
@@ -436,11 +450,40 @@ fn abstract_tokens_with(h: &RepoHandle, before: &Store, after: &Store, log: &[Lo
         };
         run.push(tok);
     }
-    Ok((pre, run))
+    Ok((pre, run, nm.files))
 }
 
-/// state oracles on what is stored after a crashed / failed / complete run
-fn state_ok(cmd: &str, h: &RepoHandle, live: &[(SnapshotFile, Option<MemSource>)], damaged_before: &BTreeSet<Id>) -> Result<(), String> {
+/// replacement table of a run for the Lean loss monitor: `<old>><new>` for every snapshot the run wrote whose `original` is
+/// a snapshot of the state before (file numbers of the trace tokens)
+fn replacement_token(h: &RepoHandle, before: &Store, after: &Store, log: &[LogOp], files: &BTreeMap<Id, usize>) -> Result<String, String> {
+    let h2 = RepoHandle { be: MemBackend::from_store(union(before, after)), hot: None, key: h.key.clone() };
+    let r = h2.open().map_err(|e| format!("oracle-fail:repl-open-{}", crate::util::errkind(&e)))?;
+    let mut pairs = vec![];
+    for snap in r.get_all_snapshots().map_err(|_| "oracle-fail:repl-snapshots".to_string())? {
+        let written = log.iter().any(|o| o.applied && o.write && o.tpe == FileType::Snapshot && o.id == *snap.id);
+        if let (true, Some(orig)) = (written, snap.original) {
+            if *orig != *snap.id && before.contains_key(&(repo::ft_idx(FileType::Snapshot), *orig)) {
+                if let (Some(a), Some(b)) = (files.get(&*orig), files.get(&*snap.id)) {
+                    pairs.push((*a, *b));
+                }
+            }
+        }
+    }
+    pairs.sort_unstable();
+    Ok(if pairs.is_empty() { "-".into() } else { pairs.iter().map(|(a, b)| format!("{a}>{b}")).collect::<Vec<_>>().join(".") })
+}
+
+/// what a state holds per visible snapshot: id, `original` (the id a rewritten / repaired snapshot replaces), time, content
+/// (`None`: snapshot damaged before the command, not read)
+pub struct SnapView {
+    pub id: Id,
+    pub original: Option<Id>,
+    pub time: String,
+    pub content: Option<Vec<repo::ReadBack>>,
+}
+
+/// state oracles on what is stored after a crashed / failed / complete run; returns what every visible snapshot holds
+fn state_ok(cmd: &str, h: &RepoHandle, live: &[(SnapshotFile, Option<MemSource>)], damaged_before: &BTreeSet<Id>) -> Result<Vec<SnapView>, String> {
     let check_applies = !damaged_before.iter().any(|d| h.be.get(FileType::Snapshot, d).is_some());
     if check_applies {
         match check_errors_retry(h, true) {
@@ -452,8 +495,11 @@ fn state_ok(cmd: &str, h: &RepoHandle, live: &[(SnapshotFile, Option<MemSource>)
     let _ = cmd;
     let r = h.open().and_then(|r| r.to_indexed()).map_err(|_| "open-failed".to_string())?;
     let snaps = r.get_all_snapshots().map_err(|_| "snapshot-list-failed".to_string())?;
+    let mut views = vec![];
     for s in &snaps {
+        let mut view = SnapView { id: *s.id, original: s.original.map(|o| *o), time: format!("{:?}", s.time), content: None };
         if damaged_before.contains(&s.id) {
+            views.push(view);
             continue;
         }
         let mut got = repo::read_back(&r, s).map_err(|_| "snapshot-unreadable".to_string())?;
@@ -463,8 +509,63 @@ fn state_ok(cmd: &str, h: &RepoHandle, live: &[(SnapshotFile, Option<MemSource>)
                 return Err("old-snapshot-changed".into());
             }
         }
+        view.content = Some(got);
+        views.push(view);
     }
-    Ok(())
+    Ok(views)
+}
+
+/// "No previously existing snapshot has lost data" for commands that REPLACE snapshots (rewrite --forget, repair snapshots
+/// --delete, …): from the complete run, the successors of every snapshot of the pre-state (a snapshot of the final state that
+/// is new and names it as `original`, or — should that field be missing — carries its time) and the snapshots the command
+/// removes on purpose (gone at the end, no successor: forget, an unrepairable root tree).
+pub struct Succession {
+    /// snapshots of the pre-state that must survive every crash prefix / failed run, with the content of their successors
+    must_keep: BTreeMap<Id, Vec<Vec<repo::ReadBack>>>,
+}
+
+impl Succession {
+    pub fn new(pre: &[SnapView], fin: &[SnapView]) -> Self {
+        let pre_ids: BTreeSet<Id> = pre.iter().map(|v| v.id).collect();
+        let mut must_keep = BTreeMap::new();
+        for s in pre {
+            let news = || fin.iter().filter(|t| !pre_ids.contains(&t.id));
+            let mut succ: Vec<&SnapView> = news().filter(|t| t.original == Some(s.id)).collect();
+            if succ.is_empty() {
+                succ = news().filter(|t| t.original.is_none_or(|o| !pre_ids.contains(&o)) && t.time == s.time).collect();
+            }
+            let stays = fin.iter().any(|t| t.id == s.id);
+            if stays || !succ.is_empty() {
+                _ = must_keep.insert(s.id, succ.iter().filter_map(|t| t.content.clone()).collect());
+            }
+        }
+        Self { must_keep }
+    }
+
+    /// every snapshot to keep is in `state` as itself or as a snapshot with the content of one of its successors
+    pub fn none_lost(&self, state: &[SnapView]) -> bool {
+        self.must_keep.iter().all(|(id, succ)| state.iter().any(|t| t.id == *id || (t.content.is_some() && succ.iter().any(|c| Some(c) == t.content.as_ref()))))
+    }
+}
+
+/// the snapshots of a store (no check, damaged ones without content)
+fn views_of(h: &RepoHandle, damaged: &BTreeSet<Id>) -> Result<Vec<SnapView>, String> {
+    let r = h.open().and_then(|r| r.to_indexed()).map_err(|_| "open-failed".to_string())?;
+    let snaps = r.get_all_snapshots().map_err(|_| "snapshot-list-failed".to_string())?;
+    Ok(snaps
+        .iter()
+        .map(|s| {
+            let content = if damaged.contains(&s.id) {
+                None
+            } else {
+                repo::read_back(&r, s).ok().map(|mut g| {
+                    g.retain(|e| e.path != b"src");
+                    g
+                })
+            };
+            SnapView { id: *s.id, original: s.original.map(|o| *o), time: format!("{:?}", s.time), content }
+        })
+        .collect())
 }
 
 fn sample_ks(n: usize, thorough: bool, seed: u64) -> Vec<usize> {
@@ -486,17 +587,31 @@ fn exec_mon(cmd: &str, seed: u64, thorough: bool) -> String {
     };
     let before = scn.h.be.store();
     let damaged: BTreeSet<Id> = scn.live.iter().filter(|l| l.1.is_none()).map(|l| *l.0.id).collect();
+    let pre_views = match views_of(&scn.h, &damaged) {
+        Ok(v) => v,
+        Err(e) => return format!("oracle-fail:{cmd}:prestate-{e}"),
+    };
     // full run
     if let Err(e) = run_cmd(cmd, seed, &scn.h, &scn) {
         return format!("oracle-fail:{cmd}:full-run-{}", crate::util::errkind(&e));
     }
     let n = scn.h.be.log().len();
-    if let Err(e) = state_ok(cmd, &scn.h, &scn.live, &BTreeSet::new()) {
-        return format!("oracle-fail:{cmd}:final-{e}");
-    }
-    // prune: every operation is a crash / fault point also in quick (the windows between index and pack removals are short)
+    let fin_views = match state_ok(cmd, &scn.h, &scn.live, &BTreeSet::new()) {
+        Ok(v) => v,
+        Err(e) => return format!("oracle-fail:{cmd}:final-{e}"),
+    };
+    // which snapshots the command keeps or replaces (and by what): none of them may be lost at any crash / fault point
+    let succession = Succession::new(&pre_views, &fin_views);
+    // prune: every operation is a crash / fault point also in quick (the windows between index and pack removals are short);
+    // so is every operation from the first snapshot write / removal on (the window of a snapshot-replacing command)
     let all_k = thorough || (cmd.starts_with("prune") && n <= 48);
-    for k in sample_ks(n, all_k, seed) {
+    let mut ks = sample_ks(n, all_k, seed);
+    if let Some(first) = scn.h.be.log().iter().position(|o| o.tpe == FileType::Snapshot) {
+        ks.extend(first..=n.min(first + 12));
+        ks.sort_unstable();
+        ks.dedup();
+    }
+    for k in ks {
         for crash in [true, false] {
             if !crash && k >= n {
                 continue;
@@ -510,8 +625,14 @@ fn exec_mon(cmd: &str, seed: u64, thorough: bool) -> String {
             if !crash && hit && res.is_ok() {
                 return format!("oracle-fail:{cmd}:failure-not-reported@{k}/{n}");
             }
-            if let Err(e) = state_ok(cmd, &h, &scn.live, &damaged) {
-                return format!("oracle-fail:{cmd}:{}-{e}@{k}/{n}", if crash { "crash" } else { "fail" });
+            let how = if crash { "crash" } else { "fail" };
+            match state_ok(cmd, &h, &scn.live, &damaged) {
+                Err(e) => return format!("oracle-fail:{cmd}:{how}-{e}@{k}/{n}"),
+                Ok(views) => {
+                    if !succession.none_lost(&views) {
+                        return format!("oracle-fail:{cmd}:{how}-snapshot-lost@{k}/{n}");
+                    }
+                }
             }
         }
     }
@@ -610,7 +731,7 @@ fn index_lists_stored_packs(h: &RepoHandle) -> Result<(), String> {
 /// state oracles after a crashed / failed big backup: a consistent prefix state, and a simple retry heals it
 fn big_state_ok(variant: u64, seed: u64, h: &RepoHandle, live: &[(SnapshotFile, Option<MemSource>)]) -> Result<(), String> {
     index_lists_stored_packs(h)?;
-    state_ok("backup", h, live, &BTreeSet::new())?;
+    _ = state_ok("backup", h, live, &BTreeSet::new())?;
     // the retry: same source, no fault
     let src = big_source(variant, seed, 1);
     let snap = do_backup(h, &src).map_err(|e| format!("retry-{}", crate::util::errkind(&e)))?;
@@ -670,7 +791,7 @@ fn exec_big(variant: u64, seed: u64, thorough: bool) -> String {
     }
     let log = scn.h.be.log();
     let n = log.len();
-    if let Err(e) = index_lists_stored_packs(&scn.h).and_then(|()| state_ok("backup", &scn.h, &scn.live, &BTreeSet::new())) {
+    if let Err(e) = index_lists_stored_packs(&scn.h).and_then(|()| state_ok("backup", &scn.h, &scn.live, &BTreeSet::new()).map(|_| ())) {
         return format!("oracle-fail:big:final-{e}");
     }
     let ks = big_ks(&log, thorough, seed);
@@ -751,7 +872,7 @@ pub fn exec(toks: &[&str]) -> String {
                 None => "bad-op".into(),
             };
         }
-        if toks.len() != 5 || toks[0] != "mon" || !CMDS.contains(&toks[1].as_str()) {
+        if !(toks.len() == 5 || toks.len() == 6) || toks[0] != "mon" || !CMDS.contains(&toks[1].as_str()) {
             return "bad-op".into();
         }
         let (seed, thorough) = match toks[2].split_once(',') {
@@ -776,8 +897,12 @@ pub fn gen_one(cmd: &str, seed: u64, thorough: bool) -> String {
     }
     let log = scn.h.be.log();
     let after = scn.h.be.store();
-    match abstract_trace(&scn.h, &before, &after, &log) {
-        Ok((pre, run)) => format!("c03 mon {cmd} {spec} {pre} {run}"),
+    let j = |v: Vec<String>| if v.is_empty() { "-".to_string() } else { v.join(";") };
+    match abstract_tokens_numbered(&scn.h, &before, &after, &log, false) {
+        Ok((pre, run, files)) => match replacement_token(&scn.h, &before, &after, &log, &files) {
+            Ok(repl) => format!("c03 mon {cmd} {spec} {} {} {repl}", j(pre), j(run)),
+            Err(e) => fallback(e),
+        },
         Err(e) => fallback(e),
     }
 }
